@@ -39,9 +39,13 @@ UT_TABLES = 0x50000           # translation tables of the VMSA user_adversary ru
 
 
 def plan(tier, seed):
+    # user-sweep: every 16-bit Thumb word, and the systematic 32-bit Thumb / ARM sweeps of C18, executed from User mode under the confinement monitor
+    sw = lambda n16, rt, ra: ([{'k': 'user-sweep', 'sub': 'sweep16', 'slice': i, 'of': 64, 'ctx': c % 3} for c in range(n16) for i in range(64)] +
+                              [{'k': 'user-sweep', 'sub': 'sweepT32', 'slice': i, 'rep': rt} for i in range(0, 384, 8)] +
+                              [{'k': 'user-sweep', 'sub': 'sweepA32', 'slice': i, 'rep': ra} for i in range(0, 8192, 64)])
     if tier == 'quick':
-        return [{'k': 'user'}] * 9000 + [{'k': 'unpriv'}] * 3000
-    return [{'k': 'user'}] * 300000 + [{'k': 'unpriv'}] * 100000
+        return [{'k': 'user'}] * 9000 + [{'k': 'unpriv'}] * 3000 + sw(1, 32, 4)
+    return [{'k': 'user'}] * 300000 + [{'k': 'unpriv'}] * 100000 + sw(6, 512, 64)
 
 
 # ------------------------------------------------------------------ generation
@@ -382,7 +386,23 @@ def gen_unpriv_lpae(rng):
             'lpae': True}
 
 
+def gen_user_sweep(item, rng, tier):
+    from scenarios import c18
+    case = gen_user(rng)
+    src = c18.gen_case({k: v for k, v in dict(item, k=item['sub']).items() if k != 'sub'}, rng, tier)['cores'][0]
+    core = case['cores'][0]
+    core['words'] = src['words']
+    core['force'] = dict(src['force'])
+    if rng.random() < 0.5:
+        core['force']['edge_regs'] = rng.randrange(1, 8)
+    case['events'] = [e for e in case['events'] if e['kind'] in ('irq', 'fiq')][:3]
+    case['max_ticks'] = len(core['words']) + 4
+    return case
+
+
 def gen(item, rng, tier):
+    if item['k'] == 'user-sweep':
+        return gen_user_sweep(item, rng, tier)
     if item['k'] == 'user':
         return gen_user(rng)
     k = rng.random()
